@@ -100,7 +100,8 @@ impl Controller for Cubic {
         // First new-data-ack exits fast recovery and deflates `cwnd`
         if self.in_fast_recovery {
             self.in_fast_recovery = false;
-            self.cwnd = self.ssthresh;
+            // (never below one segment: the MSS may have grown since `ssthresh` was computed)
+            self.cwnd = self.ssthresh.max(self.mss);
             self.w_est = self.cwnd as f64;
             return;
         } else if self.cwnd < self.ssthresh {
